@@ -1,10 +1,13 @@
 """C17 — the access path does not change what is read.
 Model: coq/Model/Access.v (`read_via caps read_evlrs chunk bytes` -> result + call log, `read_mmap`, `mmap_set`).
-Correspondence: the extracted model and laspy on the same bytes: result (header fields, VLRs, EVLRs, records) for nine
-source kinds x read_evlrs x whole/chunked reading, and the exact sequence of stream methods called on the logging doubles;
-memory map: result, and the file bytes after every edit. A malformed stream (truncations, gaps read sequentially,
-misplaced/over-counted EVLRs, bad signatures) is compared too.
-Search (no model): every access path against laspy.read(path); logs of non-seekable doubles; memory-map edits by byte diff."""
+Correspondence: the extracted model and laspy on the same bytes: result (header fields, VLRs, EVLRs, records) for ten
+source kinds x read_evlrs x whole/chunked reading, the header shown right after laspy.open (before anything is read), and
+the exact sequence of stream methods called on the logging doubles (two of which offer read() and NOTHING else: no
+seekable, no close); memory map: result, and the file bytes after every edit. A malformed stream (truncations, gaps read
+sequentially, misplaced/over-counted EVLRs, bad signatures) is compared too.
+Search (no model): every access path against laspy.read(path), at two moments (just opened / everything read); the chunks
+of a chunked read are KEPT and looked at only after the last read (and the result once more after the reader is closed):
+records handed out earlier must not change; logs of non-seekable doubles; memory-map edits by byte diff."""
 import io
 import os
 import shutil
@@ -19,25 +22,31 @@ DRIVER = "c17"
 ASSUMPTIONS = [
     "uncompressed point data (no LAZ backend is installed; compressed sources are outside the model)",
     "a source's read(n) returns all n bytes when they exist (short reads only at the end of the data), as files, BytesIO and the doubles do",
+    "a source that offers only read() (no seekable method, no close) is opened with closefd=False; for a LAS 1.4 file that announces EVLRs the "
+    "library has to ask seekable(): such a source then raises AttributeError, at opening or in read() (modelled: C17_bare_source_needs_seekable; "
+    "accepted by the oracle, counted in input_distribution) - every other file must read through it exactly as by path",
     "the memory map is written back by mmap.close() (OS write-back of a shared mapping is not modelled)",
     "independence is proved for files whose points are all present and, for non-seekable sources, whose first EVLR starts right after the "
     "last point (C17_written_files_are_laid_out: every file the writer model produces); other files are only compared model vs implementation",
 ]
 
-# (label, seekable, has_readinto, logging double?)
-DOUBLES = [("double_read_only", False, False), ("double_nonseekable_readinto", False, True),
-           ("double_no_readinto", True, False), ("double_full", True, True)]
+# (label, seekable() answers, has readinto, has a seekable method (and close) at all)
+DOUBLES = [("double_read_only", False, False, True), ("double_nonseekable_readinto", False, True, True),
+           ("double_no_readinto", True, False, True), ("double_full", True, True, True),
+           ("double_bare", False, False, False), ("double_bare_readinto", False, True, False)]
 REAL = ["path", "bytes", "BytesIO", "buffered_file"]
 
 
 class Double:
-    """A stream double over a byte string. It has read, seekable and close; readinto and seek/tell only when the
-    capability is given. Every method called is logged, and so is every other attribute the library asks for."""
+    """A stream double over a byte string. It has read; seekable and close unless it is `bare` (a stream that offers
+    only read(): it is then opened with closefd=False); readinto and seek/tell only when the capability is given.
+    Every method called is logged, and so is every other attribute the library asks for."""
 
-    def __init__(self, raw, seekable, readinto):
+    def __init__(self, raw, seekable, readinto, has_seekable=True):
         self._b = io.BytesIO(raw)
-        self._sk = seekable
+        self._sk = seekable and has_seekable
         self._ri = readinto
+        self._hs = has_seekable
         self.log = []
         self.asked = []
 
@@ -45,11 +54,11 @@ class Double:
         self.log.append("r%d" % n)
         return self._b.read(n)
 
-    def seekable(self):
+    def _seekable(self):
         self.log.append("k")
         return self._sk
 
-    def close(self):
+    def _close(self):
         pass
 
     def _readinto(self, buf):
@@ -65,6 +74,10 @@ class Double:
         return self._b.tell()
 
     def __getattr__(self, name):
+        if name == "seekable" and self._hs:
+            return self._seekable
+        if name == "close" and self._hs:
+            return self._close
         if name == "readinto" and self._ri:
             return self._readinto
         if name == "seek" and self._sk:
@@ -89,21 +102,30 @@ def hx(b):
     return bytes(b).hex()
 
 
-def snapshot(las, extra_points=b""):
-    """everything the property compares, JSON-able"""
-    h = las.header
+def snapshot_header(h):
+    """the header part of a snapshot (also what a reader shows before anything is read)"""
     d = lasio.header_assoc(h)
     hd = {k: (hx(d[k]) if isinstance(d[k], (bytes, bytearray)) else int(d[k])) for k in HDR_KEYS}
     if h.version.minor < 4:
         hd["start_of_first_evlr"] = hd["number_of_evlrs"] = 0
     if h.version.minor < 3:
         hd["start_of_waveform"] = 0
-    pts = extra_points + lasio.rec_bytes(las.points)
     return {"header": hd, "format": repr(lasio.format_key(h.point_format)), "fmt_id": h.point_format.id,
+            "vlrs": [[hx(u), r, hx(dd), hx(p)] for (u, r, dd, p) in map(lasio.vlr_tuple, h.vlrs)],
+            "evlrs": None if h.evlrs is None else [[hx(u), r, hx(dd), hx(p)] for (u, r, dd, p) in map(lasio.vlr_tuple, h.evlrs)]}
+
+
+def snapshot(las, extra_points=b""):
+    """everything the property compares, JSON-able"""
+    h = las.header
+    out = snapshot_header(h)
+    pts = extra_points + lasio.rec_bytes(las.points)
+    out.update({
             "vlrs": [[hx(u), r, hx(dd), hx(p)] for (u, r, dd, p) in map(lasio.vlr_tuple, las.vlrs)],
             "evlrs": None if las.evlrs is None else [[hx(u), r, hx(dd), hx(p)] for (u, r, dd, p) in map(lasio.vlr_tuple, las.evlrs)],
             "points": hx(pts), "count": len(pts) // max(1, h.point_format.size),
-            "pscales": [lasio.f64bits(x) for x in getattr(las.points, "scales", [])] + [lasio.f64bits(x) for x in getattr(las.points, "offsets", [])]}
+            "pscales": [lasio.f64bits(x) for x in getattr(las.points, "scales", [])] + [lasio.f64bits(x) for x in getattr(las.points, "offsets", [])]})
+    return out
 
 
 def make_source(kind, raw, path):
@@ -117,30 +139,46 @@ def make_source(kind, raw, path):
     if kind == "buffered_file":
         f = open(path, "rb")
         return f, None, f
-    for lab, sk, ri in DOUBLES:
+    for lab, sk, ri, hs in DOUBLES:
         if lab == kind:
-            d = Double(raw, sk, ri)
+            d = Double(raw, sk, ri, hs)
             return d, d, None
     raise ValueError(kind)
 
 
 def read_through(kind, raw, path, read_evlrs, chunk):
     """laspy.open(source, read_evlrs=..) then read() (chunk None) or iterate by `chunk` points and then read().
-    returns {"ok": snapshot} or {"err": kind}, plus the double's log"""
+    The chunks are kept as the caller got them and turned into bytes only after read() (`ok`), next to the bytes each had
+    when it was handed out (`now`); the records of the result are looked at again after the reader is closed (`late`).
+    returns {"opened": header snapshot right after open, "ok": snapshot} or {"err": kind}, plus the double's log"""
     import laspy
     src, dbl, closer = make_source(kind, raw, path)
     out = {}
+    las = None
     try:
-        with laspy.open(src, read_evlrs=read_evlrs) as rd:
-            pre = b""
+        kw = {} if has_close(kind) else {"closefd": False}
+        with laspy.open(src, read_evlrs=read_evlrs, **kw) as rd:
+            out["opened"] = snapshot_header(rd.header)
+            if dbl is not None:
+                out["log_open"] = list(dbl.log)
+            kept, now = [], []
             if chunk is not None:
                 for pts in rd.chunk_iterator(chunk):
-                    pre += lasio.rec_bytes(pts)
+                    kept.append(pts)
+                    now.append(lasio.rec_bytes(pts))
             las = rd.read()
+            pre = b"".join(lasio.rec_bytes(p) for p in kept)
             out["ok"] = snapshot(las, pre)
+            if kept:
+                out["now"] = hx(b"".join(now) + lasio.rec_bytes(las.points))
+                out["chunks"] = [len(x) for x in now]
+        out["late"] = hx(pre + lasio.rec_bytes(las.points))
     except Exception as ex:  # noqa
+        out.pop("ok", None)
         out["err"] = common.exc_kind(ex)
         out["msg"] = f"{type(ex).__name__}: {ex}"[:200]
+        if out["err"] == "EOther:AttributeError" and "seekable" in out["msg"] and not has_close(kind):
+            out["err"] = "EOther"       # the model's name for: a source without a seekable method was asked
     finally:
         if closer is not None:
             closer.close()
@@ -434,10 +472,19 @@ def observe_edits(ctx, files, tmp):
 # model side
 # ---------------------------------------------------------------------------------
 def caps_of(kind):
-    for lab, sk, ri in DOUBLES:
+    """(can seek, has readinto)"""
+    for lab, sk, ri, hs in DOUBLES:
         if lab == kind:
             return sk, ri
     return True, True
+
+
+def has_close(kind):
+    """False for the bare doubles: no seekable method, no close (opened with closefd=False)"""
+    for lab, sk, ri, hs in DOUBLES:
+        if lab == kind:
+            return hs
+    return True
 
 
 def tf(b):
@@ -467,7 +514,7 @@ def parse_model(line):
     return out
 
 
-def differs(model, impl):
+def differs(model, impl, points=True):
     """compares a parsed model result with an implementation observation; returns a description or None"""
     if "err" in model or "err" in impl:
         if model.get("err") != impl.get("err"):
@@ -487,7 +534,7 @@ def differs(model, impl):
     me = None if m["evlrs"] is None else [[u.hex(), r, d.hex(), p.hex()] for (u, r, d, p) in m["evlrs"]]
     if me != s["evlrs"]:
         return "evlrs", me if me is None else len(me), s["evlrs"] if s["evlrs"] is None else len(s["evlrs"])
-    if m["points"] != s["points"]:
+    if points and m["points"] != s["points"]:
         return "records", m["count"], s["count"]
     return None
 
@@ -497,18 +544,25 @@ def correspond(ctx):
         "files written by laspy for every (version, format) x point counts {0,1,2,7,..} x {no EVLR, 1-3 EVLRs} (1.4), 25% with extra "
         "dimensions, random VLRs/header fields; variants with trailing bytes, with a GAP between the last point and the first EVLR, and a "
         "malformed stream (cuts inside points/records/EVLRs/header, point count up/down, more EVLRs than stored, EVLRs elsewhere, non-ASCII "
-        "user id, bad signature, empty/short source, offset < 227). Each file is read through path, bytes, BytesIO, buffered file and four "
-        "logging doubles (seekable x readinto) x read_evlrs x {read(), chunk iterator + read()}, and through laspy.mmap; every dimension of "
-        "one file per format is assigned through the map. non-trivial = the file has points or EVLRs; distinct by (file label, source kind, "
+        "user id, bad signature, empty/short source, offset < 227). Each file is read through path, bytes, BytesIO, buffered file and six "
+        "logging doubles (seekable x readinto, and two that offer read() [+ readinto] and nothing else) x read_evlrs x {read(), chunk iterator "
+        "+ read()}, observed right after laspy.open and when everything is read (chunks kept by the caller and looked at after the last read), "
+        "and through laspy.mmap; every dimension of one file per format is assigned through the map. non-trivial = the file has points or EVLRs; distinct by (file label, source kind, "
         "read_evlrs, chunk size)")
     obs = observe(ctx)
     cmds, meta = [], []
     for fi, f in enumerate(obs["files"]):
         x = common.hexb(f["raw"])
+        opened = set()
         for ri, ((kind, e, c), _) in enumerate(f["runs"]):
             sk, rinto = caps_of(kind)
-            cmds.append(f"via {tf(sk)} {tf(rinto)} {tf(e)} {'-' if c is None else c} {x}")
+            hs = has_close(kind)
+            cmds.append(f"via {tf(sk)} {tf(rinto)} {tf(hs)} {tf(e)} {'-' if c is None else c} {x}")
             meta.append(("via", fi, ri))
+            if (sk, rinto, hs, e) not in opened:        # laspy.open alone: once per capabilities, compared with every run
+                opened.add((sk, rinto, hs, e))
+                cmds.append(f"open {tf(sk)} {tf(rinto)} {tf(hs)} {tf(e)} {x}")
+                meta.append(("open", fi, (sk, rinto, hs, e)))
         cmds.append("mmap " + x)
         meta.append(("mmap", fi, None))
     for ei, ed in enumerate(obs["edits"]):
@@ -552,6 +606,28 @@ def correspond(ctx):
                 sk, _ = caps_of(kind)
                 if not sk and not model["nst"]:
                     add("model log of a non-seekable source has seek/tell", inp, ",".join(model["log"])[:300], "")
+                if not has_close(kind) and impl["asked"] and set(impl["asked"]) - {"readinto", "seekable", "seek", "tell"}:
+                    ctx.count("bare source asked for: " + ",".join(sorted(set(impl["asked"]))))
+        elif what == "open":
+            f = obs["files"][a]
+            model = parse_model(line)
+            for (kind, e, c), impl in f["runs"]:
+                if caps_of(kind) + (has_close(kind), e) != b:
+                    continue
+                ctx.traces += 1
+                ctx.count("open stage:" + (model.get("err") or ("evlrs " + ("deferred" if model["ok"]["evlrs"] is None else "loaded"))))
+                inp = {"file": f["label"], "class": f["cls"], "kind": kind, "read_evlrs": e, "chunk": c, "stage": "opened", "file_hex": f["raw"].hex()}
+                io_ = {"ok": impl["opened"]} if "opened" in impl else {"err": impl.get("err", "?"), "msg": impl.get("msg", "")}
+                d = differs(model, io_, points=False)
+                if d and f["label"].endswith("/small_offset") and kind in ("path", "buffered_file") and "err" in model and "err" in io_:
+                    d = None
+                if d:
+                    add(f"just opened: {d[0]} ({f['cls']})", inp, str(d[1])[:120], str(d[2])[:160])
+                if "log" in impl:
+                    ilog = impl.get("log_open", impl["log"])
+                    ok = model["log"][:len(ilog)] == ilog if ("err" in model and "err" in io_) else model["log"] == ilog
+                    if not ok:
+                        add(f"call log of laspy.open ({f['cls']})", inp, ",".join(model["log"])[:300], ",".join(ilog)[:300])
         elif what == "mmap":
             f = obs["files"][a]
             model = parse_model(line)
@@ -602,6 +678,53 @@ def same_read(ref, got):
     return None
 
 
+def needs_evlrs(raw):
+    """the header announces EVLRs (LAS 1.4+): the only case in which the library has to know whether the source seeks"""
+    return len(raw) >= 247 and raw[25] >= 4 and int.from_bytes(raw[243:247], "little") > 0
+
+
+def judge(raw, cls, kind, e, c, ref, ref_open, got):
+    """the property on one access path: (kind of failure, what was observed) pairs; `ref` is the whole read by path,
+    `ref_open` what the reader of the path shows right after laspy.open with the same read_evlrs"""
+    sk, _ = caps_of(kind)
+    bare = not has_close(kind)
+    src = ("a source that offers only read()" if bare else "seekable source" if sk else "non-seekable source")
+    out = []
+    needs = needs_evlrs(raw)
+    if bare and needs and got.get("err") == "EOther":
+        return [("accepted", "AttributeError: a source without a seekable method, a file with EVLRs")]
+    # 1. everything read
+    if cls != "gap" or sk:
+        d = same_read(ref, got)
+        if d:
+            part = d.split(":")[0].split(" ")[0]
+            out.append((f"{part} differ from the path read: {src}, {cls} file", d))
+    # 2. what was handed out does not change afterwards
+    if "ok" in got:
+        if "now" in got and got["now"] != got["ok"]["points"]:
+            k = next((i for i in range(0, len(got["now"]), 2) if got["now"][i:i + 2] != got["ok"]["points"][i:i + 2]), 0) // 2
+            out.append((f"records handed out by an earlier read changed when later ones were read: {'source with readinto' if caps_of(kind)[1] else 'source without readinto'}",
+                        f"chunks of {got.get('chunks')} bytes kept by the caller; byte {k} of the records differs once everything is read"))
+        if "late" in got and got["late"] != got["ok"]["points"]:
+            out.append(("records changed when the reader was closed", "the records of the result differ after leaving the with-block"))
+    # 3. just opened: the same header; EVLRs as by path, or left for read() when the source cannot seek to them
+    if "opened" in got and ref_open is not None and "opened" in ref_open:
+        a, b = ref_open["opened"], got["opened"]
+        for k in ("header", "format", "vlrs"):
+            if a[k] != b[k]:
+                what = [x for x in HDR_KEYS if a[k][x] != b[k][x]] if k == "header" else k
+                out.append((f"just opened: {k} differs from the path's: {src}, {cls} file", f"{what}"))
+                break
+        want = a["evlrs"] if (sk or not needs) else None
+        if b["evlrs"] != want:
+            def ln(x):
+                return None if x is None else len(x)
+            out.append((f"just opened: evlrs differ from the path's: {src}, {cls} file",
+                        f"header.evlrs right after open(read_evlrs={e}): {ln(b['evlrs'])} here, {ln(a['evlrs'])} by path"
+                        + ("" if want is a["evlrs"] else " (None expected: left for read())")))
+    return out
+
+
 def search(ctx, seeds):
     obs = observe(ctx)
     failing, seen = [], set()
@@ -622,14 +745,21 @@ def search(ctx, seeds):
             add("the path read differs from what was written", {"file": f["label"], "class": f["cls"], "kind": "path", "file_hex": f["raw"].hex()},
                 f"records equal: {ref['ok']['points'] == t['points']} ({ref['ok']['count']} read, {f['n']} written); "
                 f"evlrs equal: {ref['ok']['evlrs'] == t['evlrs']}; vlrs {len(ref['ok']['vlrs'])} read, {t['vlrs']} written")
+        if ref["opened"]["evlrs"] != t["evlrs"]:
+            add("just opened by path (read_evlrs=True): evlrs differ from what was written", {"file": f["label"], "class": f["cls"], "kind": "path",
+                "read_evlrs": True, "chunk": None, "stage": "opened", "file_hex": f["raw"].hex()}, f"{ref['opened']['evlrs']!r}"[:200])
+        ref_open = {}
+        for (kind, e, c), got in f["runs"]:
+            if kind == "path" and e not in ref_open:
+                ref_open[e] = got
         for (kind, e, c), got in f["runs"]:
             sk, _ = caps_of(kind)
             inp = {"file": f["label"], "class": f["cls"], "kind": kind, "read_evlrs": e, "chunk": c, "file_hex": f["raw"].hex()}
-            if f["cls"] != "gap" or sk:
-                d = same_read(ref, got)
-                if d:
-                    part = d.split(":")[0].split(" ")[0]
-                    add(f"{part} differ from the path read: {'seekable' if sk else 'non-seekable'} source, {f['cls']} file", inp, d)
+            for (k, why) in judge(f["raw"], f["cls"], kind, e, c, ref, ref_open.get(e), got):
+                if k == "accepted":
+                    ctx.count("bare source, file with EVLRs: AttributeError (accepted, see assumptions)")
+                else:
+                    add(k, inp, why)
             if "log" in got and not sk:
                 bad = [t for t in got["log"] if t[0] in "st"] + [a for a in got["asked"] if a in ("seek", "tell")]
                 if bad:
@@ -679,10 +809,17 @@ def replay(ctx, data):
         with open(path, "wb") as fh:
             fh.write(raw)
         ref = read_through("path", raw, path, True, None)
-        got = read_mmap(path) if inp["kind"] == "mmap" else read_through(inp["kind"], raw, path, inp.get("read_evlrs", True), inp.get("chunk"))
-        d = same_read(ref, got)
-        bad = [t for t in got.get("log", []) if t[0] in "st"] if not caps_of(inp["kind"])[0] else []
-        print("REPRODUCED:" if (d or bad) else "not reproduced", d, bad, got.get("log"))
-        return 1 if (d or bad) else 0
+        if inp["kind"] == "mmap":
+            got = read_mmap(path)
+            bad = [d for d in [same_read(ref, got)] if d]
+        else:
+            e, c = inp.get("read_evlrs", True), inp.get("chunk")
+            got = read_through(inp["kind"], raw, path, e, c)
+            ref_open = read_through("path", raw, path, e, None)
+            bad = [x for x in judge(raw, inp.get("class", "valid"), inp["kind"], e, c, ref, ref_open, got) if x[0] != "accepted"]
+            if not caps_of(inp["kind"])[0]:
+                bad += [t for t in got.get("log", []) if t[0] in "st"]
+        print("REPRODUCED:" if bad else "not reproduced", bad, got.get("log"))
+        return 1 if bad else 0
     finally:
         shutil.rmtree(tmp, ignore_errors=True)
